@@ -17,6 +17,11 @@ RULE = ("worlds: for each of the 7 BSP configurations (v19, v20, v21, L4D2 heade
         "(material / model / texture name incl. case variants, geometry, referenced objects) but differs elsewhere, shared sub-objects: faces sharing planes/texinfo/orig faces/edge slices, slices running past the "
         "end of a shared list plus fresh objects, entities sharing a brush model, leafs sharing faces/brushes), assigned, saved, "
         "re-opened and compared field by field (deep canonical dump); a case = one (configuration, prop version, world seed); "
+        "about a third of the worlds (all, thorough) are run a second time as a HISTORY: the file of a first world is loaded, every view "
+        "accessed (filling the object's caches: _texdata, out_comma_sep, static_prop_version, parsed lists), create_texinfo()/TexInfo.set() "
+        "are called on known and new materials, then a second world that re-uses the file's texture / material / model names (same and "
+        "other case) with different contents — and some of the loaded objects themselves — is assigned under another static-prop version, "
+        "saved, re-read and compared; the writers' bytes are compared with the model, which has no input but the assigned value. "
         "non-trivial = at least one non-empty view. struct layer: every extracted format string x boundary/random/out-of-range/"
         "wrong-arity value tuples against CPython struct. RLE: all byte strings over {0,1,255} of length <= 7 (8 thorough), zero "
         "runs around 255/510/765, random; decoder also on arbitrary streams with start/max_clusters. index builders: random "
@@ -59,6 +64,8 @@ ASSUMPTIONS = [
     "on re-read BSP.static_prop_version is preset for the field comparison; auto-detection from (header version, record size) is checked "
     "separately for every version except V11/Black-Mesa (11, 80 bytes: ambiguous by design, resolved by the BSP version)",
     "native-order formats ('i', 'ii', 'fff', 'H'*n) are laid out like '<' ones: little-endian machine, checked at run time",
+    "history worlds: BSP.out_comma_sep and BSP.static_prop_version are documented knobs and are set together with ents / props; the brush "
+    "model view (keyed by the entity objects of ents) is replaced together with ents once it has been parsed",
     "model names end in a non-NUL byte (the reader strips trailing NULs of the 128-byte field)",
 ]
 LEVEL_TEXT = ("Lean theorems for all inputs: struct pack/unpack round trip and rejection (never truncation) of out-of-range integers for every "
@@ -389,12 +396,62 @@ def _plan(ctx):
     return plan
 
 
-def _run_world(tmp, cfg, pv, size, empty, wseed, views=None, tag='x'):
-    """One save / re-open cycle. Returns dict(save_exc | diffs {view: (path, exp, act)} | read_exc {view: ..}, handles)."""
+def _next_prop_version(pv):
+    from srctools.bsp import StaticPropVersion
+    vers = [v.name for v in StaticPropVersion if v.name not in ('UNKNOWN', 'DEFAULT')]
+    return vers[(vers.index(pv) + 5) % len(vers)]
+
+
+def _load_and_touch(path, cfg, w1, rng):
+    """History for the second round: open the file written in the first round, ACCESS every view (parsing it and filling
+    whatever the BSP object caches: `_texdata`, `out_comma_sep`, `static_prop_version`, the parsed lists themselves), and use
+    the public helper constructors (`create_texinfo`, `TexInfo.set`) on materials the file already knows and on new ones."""
+    from srctools.bsp import BSP, StaticPropVersion
+    from srctools.math import Vec
+    b = BSP(path)
+    b.static_prop_version = StaticPropVersion[w1.prop_version]
+    order = [v for v in W.VIEWS if v != 'bmodels']
+    if w1.bmodels is not None:
+        order.insert(0, 'bmodels')
+    for v in order:
+        getattr(b, v)
+    infos = b.texinfo
+    if infos:
+        known = rng.choice(infos).mat
+        for mat in (known, known.swapcase(), 'helper/new%d' % rng.randrange(100)):
+            b.create_texinfo(mat, reflectivity=Vec(0.25, 0.5, 0.75), width=rng.choice([16, 1024]), height=rng.choice([16, 512]))
+        rng.choice(infos).set(b, rng.choice(infos).mat, Vec(0.125, 0.125, 0.125), 2048, 4096)
+        rng.choice(infos).set(b, 'helper/set%d' % rng.randrange(100), Vec(0.5, 0.5, 0.5), 8, 8)
+    return b
+
+
+def _run_world(tmp, cfg, pv, size, empty, wseed, views=None, tag='x', history=False):
+    """One save / re-open cycle. Returns dict(save_exc | diffs {view: (path, exp, act)} | read_exc {view: ..}, handles).
+    `history`: the cycle runs on a BSP object that has loaded and fully accessed a file written from another world, and the
+    assigned world re-uses that file's material / texture / model names with different contents."""
     from srctools.bsp import BSP, StaticPropVersion
     rng = random.Random(wseed)
-    w = W.gen_world(rng, cfg, size=size, prop_version=pv, empty=empty)
-    bsp = W.open_config(cfg, tmp)
+    if history:
+        first = _run_world(tmp, cfg, pv, size, False, wseed + ':first', None, tag + 'a')
+        if first['save_exc'] or 'path' not in first:
+            first['history_failed_in_first_round'] = True
+            return first
+        w1 = first['world']
+        try:
+            bsp = _load_and_touch(first['path'], cfg, w1, rng)
+        except Exception as e:
+            return {'world': w1, 'diffs': {}, 'read_exc': {'history:load': f'{type(e).__name__}: {e}'}, 'save_exc': None, 'nonempty': 0}
+        for _ in range(40):
+            w = W.gen_world(rng, cfg, size=size, prop_version=_next_prop_version(pv), empty=empty, reuse=w1, loaded=bsp)
+            # the brush-model view is keyed by the entity objects of `ents`: once it has been parsed from the old file it has
+            # to be replaced together with `ents`
+            if w.bmodels is not None or w1.bmodels is None:
+                break
+        else:
+            return first
+    else:
+        w = W.gen_world(rng, cfg, size=size, prop_version=pv, empty=empty)
+        bsp = W.open_config(cfg, tmp)
     D = W.Dumper(cfg, w.prop_version)
     res = {'world': w, 'diffs': {}, 'read_exc': {}, 'save_exc': None, 'nonempty': 0}
     use = [v for v in W.VIEWS if views is None or v in views]
@@ -583,6 +640,17 @@ def _worlds(ctx):
         res = _run_world(tmp, cfg, pv, size, empty, wseed, tag=f'w{i}')
         res['case'] = {'cfg': cfg, 'prop_version': pv, 'size': size, 'empty': empty, 'wseed': wseed}
         out.append(res)
+    # histories: the same cycle on a BSP object that has loaded + accessed another world's file first
+    nh = 0
+    for i, (cfg, pv, size, empty) in enumerate(_plan(ctx)):
+        if empty or (not ctx.thorough and i % 3 != 0):
+            continue
+        wseed = f'{ctx.seed}:h{i}:{cfg}:{pv}'
+        res = _run_world(tmp, cfg, pv, max(size, 3), False, wseed, tag=f'h{i}', history=True)
+        res['case'] = {'cfg': cfg, 'prop_version': pv, 'size': max(size, 3), 'empty': False, 'wseed': wseed, 'history': True}
+        out.append(res)
+        nh += 1
+    ctx.count('history-worlds', nh)
     # coverage: every configuration must have seen every view non-empty at least once
     n_plan = len(out)
     for cfg in [c[0] for c in W.CONFIGS]:
@@ -1111,7 +1179,7 @@ def _shrink_world(ctx, wit):
             break
         for k in range(12):
             ws = f"{inp['wseed']}:s{size}:{k}"
-            r = _run_world(tmp, inp['cfg'], inp['prop_version'], size, False, ws)
+            r = _run_world(tmp, inp['cfg'], inp['prop_version'], size, False, ws, history=inp.get('history', False))
             if view in r['diffs'] or view in r['read_exc'] or r['save_exc']:
                 best = dict(inp, size=size, wseed=ws)
                 break
@@ -1209,7 +1277,7 @@ def replay(ctx, payload):
             return not isinstance(r, tuple)
         if 'wseed' in inp:
             use = inp.get('shrunk') or inp
-            r = _run_world(tmp, use['cfg'], use['prop_version'], use['size'], use.get('empty', False), use['wseed'])
+            r = _run_world(tmp, use['cfg'], use['prop_version'], use['size'], use.get('empty', False), use['wseed'], history=use.get('history', False))
             print('world', use, 'save_exc', r['save_exc'], 'read_exc', r['read_exc'], 'diffs', r['diffs'])
             return not (r['save_exc'] or r['read_exc'] or r['diffs'])
         if 'calls' in inp:
